@@ -455,7 +455,7 @@ def inclusion(run, R="INC"):
                           "%s is called with a file name that is neither a root file name nor the result of filename_navigate" % f.id)
             else:
                 run.violation(R, key, f.loc(t["span"]), "%s opens `%s`, which did not pass filename_navigate: relative resolution and confinement would be bypassed" % (f.id, ch[:120]))
-    run.floor(R, "get_handle call sites in asm::", n, 3)
+    run.floor(R, "get_handle call sites in asm::", n, 2)       # 3 on the pinned tree; two inclusion functions may share one helper
     # INC2: filename_navigate validates and collapses; `..` past the start is an error
     if nav:
         val = calls_to(nav, "file_navigation::filename_validate_relative")
@@ -1643,9 +1643,15 @@ def listing_reads_within_span(run, R="MPT"):
     lies inside the row's span (`< span.size`); the last digit of an item whose size is not a multiple of the digit width is padded,
     not completed with bits of the item that follows"""
     n, bad = 0, []
-    for f in run.prog.real_fns():
-        if f.kind != "AssocFn" or not re.search(r"::format_(annotated|tcgame)$", f.id):
-            continue
+    # the two listings and the private helpers of the module that read a span's digits for them
+    listing = [f for f in run.prog.real_fns() if f.kind == "AssocFn" and re.search(r"::format_(annotated|tcgame)$", f.id)]
+    helpers = []
+    for f in listing:
+        for bi, t in f.calls():
+            h = run.prog.fn(t.get("resolved") or "")
+            if h is not None and h.id.startswith("util::bitvec_format") and not re.search(r"::format_\w+$", h.id) and any("BitVecSpan" in str(ty) for ty in (t.get("arg_tys") or [])) and h not in helpers:
+                helpers.append(h)
+    for f in listing + helpers:
         for bi, t in f.calls():
             if not (t.get("resolved") or t.get("callee") or "").endswith("bitvec::BitVec::read_bit"):
                 continue
@@ -1662,5 +1668,5 @@ def listing_reads_within_span(run, R="MPT"):
                         guarded = True
             if not guarded:
                 bad.append(f.loc(t["span"]))
-    run.check(n >= 2 and not bad, R, R + "|listing|reads-within-span", "-", "the listings read a row's bits only inside the row's span (%d read site(s))" % n,
+    run.check(n >= 1 and len(listing) == 2 and not bad, R, R + "|listing|reads-within-span", "-", "the listings read a row's bits only inside the row's span (%d read site(s))" % n,
               "a listing reads bits for a row's digits without testing that they lie inside the row's span (%s): with a digit width that does not divide the item size (`base:8` and 8-bit items) the last digit of a row includes bits of the next item" % (", ".join(bad) or "read sites not found"))
